@@ -14,7 +14,7 @@ def drive(reqs):
     for ekey, idx in groups.items():
         p = subprocess.run([D], input='\n'.join(json.dumps({k: v for k, v in reqs[i].items() if k != 'env'}) for i in idx) + '\n',
                            capture_output=True, text=True, env=dict(os.environ, **json.loads(ekey)))
-        for i, l in zip(idx, p.stdout.splitlines()):
+        for i, l in zip(idx, [x for x in p.stdout.split('\n') if x]):
             outs[i] = json.loads(l)
     return outs
 bad = 0
